@@ -6,7 +6,7 @@ use crate::report;
 use rateslib::dual::{ADOrder, Dual, Gradient1, Number};
 use rateslib::fx::rates::{Ccy, FXRate, FXRates};
 
-const CCYS: [&str; 7] = ["usd", "eur", "gbp", "jpy", "cad", "aud", "nok"];
+const CCYS: [&str; 13] = ["usd", "eur", "gbp", "jpy", "cad", "aud", "nok", "sek", "chf", "nzd", "inr", "mxn", "zar"];
 
 fn ccy(s: &str) -> Ccy {
     Ccy::try_new(s).unwrap()
@@ -28,6 +28,8 @@ fn shapes(n: usize) -> Vec<Vec<usize>> {
     out.push(vec![0; n]); // star
     out.push((0..n).map(|i| if i == 0 { 0 } else { (i - 1) / 2 }).collect()); // binary tree
     out.push((0..n).map(|i| if i < 2 { 0 } else { i - 2 }).collect()); // two interleaved chains
+    out.push((0..n).map(|i| if i == 0 { 0 } else { (i * 7 + 3) % i }).collect()); // irregular
+    out.push((0..n).map(|i| if i == 0 { 0 } else if i % 3 == 0 { 0 } else { i - 1 }).collect()); // caterpillar
     out
 }
 
@@ -79,6 +81,14 @@ fn oracle(m: &Market, i: usize, j: usize) -> (f64, Vec<i32>) {
 }
 
 fn check_market(func: &str, m: &Market, fxr: &FXRates, what: &str, with_grad: bool) -> bool {
+    crate::CASES.fetch_add(1, std::sync::atomic::Ordering::Relaxed);
+    crate::EVALS.fetch_add(m.n * m.n * (if with_grad { 1 + m.quotes.len() } else { 1 }), std::sync::atomic::Ordering::Relaxed);
+    {
+        let mut s = crate::SAMPLE.lock().unwrap();
+        if s.is_empty() || (m.n == 5 && s.len() < 60) {
+            *s = what.to_string();
+        }
+    }
     for i in 0..m.n {
         for j in 0..m.n {
             let (exp, dirs) = oracle(m, i, j);
@@ -123,12 +133,14 @@ fn show(m: &Market) -> String {
 }
 
 fn probe_build(func: &str) -> bool {
-    for n in 2..=6usize {
+    let nmax = if std::env::var("VERIF_TIER").map(|t| t == "thorough").unwrap_or(false) { 12usize } else { 8usize };
+    for n in 2..=nmax {
         for parent in shapes(n) {
-            for flip in [0usize, (1 << (n - 1)) - 1, 0b10101 & ((1 << (n - 1)) - 1)] {
-                for rot in [0usize, 1, 3] {
+            let all_flips: Vec<usize> = if n <= 7 { (0..(1usize << (n - 1))).collect() } else { vec![0usize, (1 << (n - 1)) - 1, 0b10101010101 & ((1 << (n - 1)) - 1), 0b01100110011 & ((1 << (n - 1)) - 1), 0b00011100011 & ((1 << (n - 1)) - 1)] };
+            for flip in all_flips {
+                for rot in 0..(n - 1).min(4) {
                     let m = market(n, &parent, flip, rot);
-                    for base in [None, Some(0), Some(n - 1)] {
+                    for base in [None, Some(0), Some(n - 1), Some(n / 2)] {
                         match build(&m, base) {
                             Err(_) => {
                                 report("probe", func, &format!("FXRates::try_new([{}], base={:?})", show(&m), base.map(|b| CCYS[b])), "Err", "Ok (the quotes form a tree)", false);
@@ -214,7 +226,7 @@ fn probe_history(func: &str) -> bool {
                     1 => {
                         // refused updates: reversed pair, unquoted cross, unknown currency
                         let (a, b, _) = m.quotes[0];
-                        let mut bads = vec![("reversed pair", q(CCYS[b], CCYS[a], 2.0)), ("unknown currency", q(CCYS[a], "nok", 2.0))];
+                        let mut bads = vec![("reversed pair", q(CCYS[b], CCYS[a], 2.0)), ("unknown currency", q(CCYS[a], "zar", 2.0))];
                         if n >= 3 {
                             // two currencies that are both in the market but not quoted against each other
                             'outer: for x in 0..n {
